@@ -102,12 +102,27 @@ def write_overlay(spec):
 def build_driver(spec):
     overlay = write_overlay(spec)
     os.makedirs(BIN, exist_ok=True)
-    out = os.path.join(BIN, spec["driver"] + repo_tag())
+    canon = os.path.join(BIN, spec["driver"] + repo_tag())
+    # This run's own binary: a concurrent run of the same property (another
+    # shell, a builder) must not be able to remove or replace what this run
+    # executes.  Never run a stale binary: the file is new, named by pid.
+    out = "%s.%d" % (canon, os.getpid())
     if os.path.exists(out):
-        os.remove(out)  # never run a stale binary
+        os.remove(out)
+    import atexit
+    atexit.register(lambda p=out: os.path.exists(p) and os.remove(p))
     cmd = ["go", "build", "-tags", "verif", "-overlay", overlay, "-o", out, "./internal/verif/" + spec["driver"]]
     with Lock("gobuild"):
         rc, so, se, dt = run(cmd, cwd=REPO, env=GOENV, timeout=1500)
+    if rc == 0:
+        # keep a copy under the plain name for manual replays (atomic replace)
+        try:
+            import shutil
+            tmp = canon + ".new.%d" % os.getpid()
+            shutil.copy2(out, tmp)
+            os.replace(tmp, canon)
+        except OSError:
+            pass
     return rc == 0, (so + se)[-4000:], out, dt
 
 
